@@ -90,6 +90,9 @@ pub fn ref_answers(refm: &RefModel, chain: &[H32], limit: usize) -> Vec<Vec<u64>
 #[derive(Clone, Debug, Serialize, PartialEq, Eq)]
 pub enum FEv {
     Blk { parent: usize, body: u8 },
+    /// the same reply with an undecodable item behind the block: the block is admitted, the
+    /// rest is dropped with an error - the new tip is observed all the same
+    BlkThenGarbage { parent: usize, body: u8 },
     Upgrade,
     /// an update call to get_current_fee_percentiles (an observation point in lazy mode)
     Query,
@@ -184,12 +187,16 @@ impl Model for C15Model {
             return vec![];
         }
         let mut evs = vec![];
-        let nb = hist.iter().filter(|e| matches!(e, FEv::Blk { .. })).count();
+        let nb = hist.iter().filter(|e| matches!(e, FEv::Blk { .. } | FEv::BlkThenGarbage { .. })).count();
         if nb < self.max_blocks {
             for p in live_ids(&s.w) {
                 for b in &self.bodies {
                     if build_body(&s.w, &s.w.ids[p], *b, s.w.ids.len()).is_some() {
                         evs.push(FEv::Blk { parent: p, body: *b });
+                        // eager mode, once per history
+                        if !self.lazy && !hist.iter().any(|e| matches!(e, FEv::BlkThenGarbage { .. })) {
+                            evs.push(FEv::BlkThenGarbage { parent: p, body: *b });
+                        }
                     }
                 }
             }
@@ -207,7 +214,8 @@ impl Model for C15Model {
 
     fn apply(&self, s: &mut FCtx, ev: &FEv, check: bool, out: &mut Out) -> bool {
         match ev {
-            FEv::Blk { parent, body } => {
+            FEv::Blk { parent, body } | FEv::BlkThenGarbage { parent, body } => {
+                let garbage = matches!(ev, FEv::BlkThenGarbage { .. });
                 // ingestion pending from earlier rounds runs first (as the heartbeat does);
                 // the block is built against the tree the source is asked about
                 let mut guard = 0;
@@ -224,7 +232,14 @@ impl Model for C15Model {
                 let Some(block) = build_block(&s.w, *parent, *body) else {
                     return false;
                 };
-                if let Err(p) = feed(&mut s.w, vec![factory::block_bytes(&block)], vec![]) {
+                let mut items = vec![factory::block_bytes(&block)];
+                if garbage {
+                    items.push(vec![0xde, 0xad]);
+                    if check {
+                        out.count("replies_with_an_undecodable_item_behind_the_block");
+                    }
+                }
+                if let Err(p) = feed(&mut s.w, items, vec![]) {
                     s.dead = true;
                     if check {
                         out.violation("heartbeat-trap", None, json!({"panic": p}));
